@@ -58,24 +58,50 @@ func ruleC01R4(c *Ctx) {
 				fCopied
 			)
 			var problems []string
-			ex := &Explorer{Fn: fn}
-			ex.Outcomes = func(ci ssa.CallInstruction, st *PState) []Outcome {
+			// helpers of the field type are followed (the copy may live in a method that returns the
+			// bytes to analyse): a helper's return is "fresh" when it returns a slice it allocated and
+			// filled by copy() on that path
+			const fFreshRet uint64 = 1 << 8
+			sm := &Summarizer{}
+			sm.Follow = func(f *ssa.Function) bool {
+				return f != fn && funcPkgPath(f) == modPath && f.Signature.Recv() != nil && f.Name() != "Store" && f.Name() != "Value"
+			}
+			sm.SiteOutcomes = func(ci ssa.CallInstruction, st *PState) []Outcome {
 				if isStoreQuery(ci.Common()) {
 					return []Outcome{{Results: []Tri{TriYes}}, {Results: []Tri{TriNo}, Flags: fNotStored}}
 				}
 				return nil
 			}
-			ex.OnInstr = func(in ssa.Instruction, st *PState) bool {
+			sm.OnInstr = func(f *ssa.Function, in ssa.Instruction, st *PState) bool {
 				if ci, ok := in.(*ssa.Call); ok && builtinName(ci.Common()) == "copy" {
 					if _, isMk := st.Canon(ci.Common().Args[0]).(*ssa.MakeSlice); isMk && dependsOnFieldValue(ci.Common().Args[1], fValue) {
 						st.Flags |= fCopied
 					}
+				}
+				if r, ok := in.(*ssa.Return); ok && f != fn && len(r.Results) == 1 {
+					if _, isMk := st.Canon(r.Results[0]).(*ssa.MakeSlice); isMk && st.Flags&fCopied != 0 {
+						st.Flags |= fFreshRet
+					}
+				}
+				return true
+			}
+			ex := sm.Explorer(fn)
+			baseOn := ex.OnInstr
+			ex.OnInstr = func(in ssa.Instruction, st *PState) bool {
+				if baseOn != nil {
+					baseOn(in, st)
 				}
 				if in != ssa.Instruction(site) {
 					return true
 				}
 				arg := st.Canon(site.Common().Args[0])
 				if st.Flags&fNotStored != 0 {
+					return true
+				}
+				if call, isCall := arg.(*ssa.Call); isCall && call.Common().StaticCallee() != nil && sm.Follow(call.Common().StaticCallee()) {
+					if st.Flags&fFreshRet == 0 {
+						problems = append(problems, "a path on which the field may be stored analyses what "+FuncName(call.Common().StaticCallee())+" returned without that being a fresh copy of the value")
+					}
 					return true
 				}
 				_, isMk := arg.(*ssa.MakeSlice)
